@@ -804,6 +804,32 @@ class Body:
                 break
         return ".".join(reversed(parts))
 
+    def canon_term(self, t, depth=0):
+        """the same term with every variable / parameter / captured variable named by its type (`‹Vec<u8>›`)"""
+        if depth > 14 or not isinstance(t, tuple):
+            return t
+        k = t[0]
+        if k in ("var", "param") and len(t) > 2 and isinstance(t[2], int) and t[2] < len(self.locals):
+            return (k, "‹%s›" % short_type(self.locals[t[2]]), t[2])
+        if k == "upvar":
+            return (k, "‹%s›" % (short_type(self.upvar_type(t[1])) or "^"))
+        if k in ("field", "deref", "ref", "index", "downcast", "cast", "discr", "await"):
+            return (k, self.canon_term(t[1], depth + 1)) + tuple(t[2:])
+        if k == "call":
+            return (k, t[1], [self.canon_term(a, depth + 1) for a in t[2]]) + tuple(t[3:])
+        if k == "aggr":
+            return t[:4] + ([self.canon_term(a, depth + 1) for a in t[4]],) + tuple(t[5:])
+        if k == "bin":
+            return (k, t[1], self.canon_term(t[2], depth + 1), self.canon_term(t[3], depth + 1))
+        if k == "un":
+            return (k, t[1], self.canon_term(t[2], depth + 1))
+        if k == "phi":
+            return (k, [self.canon_term(a, depth + 1) for a in t[1]])
+        return t
+
+    def cstr(self, t):
+        return term_str(self.canon_term(t))
+
     def root_type(self, t):
         """type of the variable/parameter at the root of a place-like term ('' when unknown)"""
         while t[0] in ("ref", "deref", "field", "cast", "downcast", "index"):
